@@ -52,6 +52,8 @@ type Result struct {
 	// Narrow, when set, is a plan reduced to the single failing case
 	// (specific cut, bit, write index …) that the worker already identified.
 	Narrow *Plan `json:"narrow,omitempty"`
+	// NarrowedCase is the index of the case Narrow was cut down to (-1 unknown).
+	NarrowedCase int `json:"narrowed_case,omitempty"`
 
 	Evals   int      `json:"evals"`
 	Sigs    []string `json:"sigs,omitempty"` // distinct non-trivial coverage signatures hit
